@@ -101,6 +101,8 @@ Print Assumptions C16_only_adds_number_added.
 Theorem C16_n_added : forall k, (0 <= k <= 4)%Z -> Z.of_nat (n_added k) = k.
 Proof. exact n_added_exact. Qed.
 Print Assumptions C16_n_added.
+Example C16_hint_above_four_places_nothing : n_added 5 = 0%nat.
+Proof. reflexivity. Qed.
 
 (* ====================================================================== idempotence *)
 (* hint-free molecule, no negative bond order, default selection: after the call the default selection is the
